@@ -20,6 +20,13 @@ instance and every class as source and every enumerated filter tuple the four tr
 
 Class level: the statement only says "Names == names of the full operation", so only
 names-vs-full, monotone and raised are judged there.
+
+Signatures: {'check', 'what', 'op', 'filters'}; `op` is 'Names/Full' when both operations of a pair
+show the same failure (one root cause -> one signature), `filters` names the filters still set
+after minimisation (association instances, filters and the node family are dropped greedily while
+the same `what` is still observed). A failure an Open.../Iter... variant shows identically to the
+traditional operation at the same point is not reported again. `what` of `raised` is
+'<ExceptionClass>@<innermost function inside pywbem_mock>' or 'CIMError:<status code name>'.
 """
 import copy
 import itertools
@@ -41,8 +48,9 @@ RULE = ('class world A, A1:A, B, associations R(x A,y B), R1:R, Q(l A,r A), T(a 
         'add_cimobjects); every stored instance and every class is a source; filter tuples come '
         'from per-filter alphabets {None, existing names, a case variant, sub/superclass, a class '
         'of the wrong kind, a non-existing name} under a total budget (association instances x '
-        'filters set); a case = (graph, source, operation family, filter tuple); it is '
-        'non-trivial if the operation answered and the observed or the expected result is non-empty')
+        'filters set; a source no stored reference points to gets one filter level less); a case '
+        '= (graph, source, operation family, filter tuple); it is non-trivial if the operation '
+        'answered and the observed or the expected result is non-empty')
 ASSUMPTIONS = [
     'the brute-force model mc/refmodels/assoc.py is the C13 statement (self-tested at import)',
     'an association instance is "stored" if it is in the instance store of any namespace; '
@@ -52,10 +60,14 @@ ASSUMPTIONS = [
     'object identity = namespace + class + keys (case-insensitive names); host is compared only '
     'between the Names and the full operation',
     'graphs are enumerated as subsets in one creation order (no permutations of creation order)',
+    'a failure an Open.../Iter... variant shows identically to the traditional operation at the '
+    'same point is the same failure (reported once); a failure the Names and the full operation '
+    'show identically is reported once for the pair',
 ]
 
-NS = {'d': 'root/cimv2', 'o': 'root/other'}
-HOSTLESS = None
+# namespace flags; 'D' is the default namespace written in another lexical case (only used in
+# reference values)
+NS = {'d': 'root/cimv2', 'o': 'root/other', 'D': 'ROOT/CimV2'}
 
 QUALS = """
 Qualifier Key : boolean = false, Scope(property, reference), Flavor(DisableOverride, ToSubclass);
@@ -108,28 +120,38 @@ ALPHA_EXIST = {'assoc': {'AssocClass': AC_EXIST, 'ResultClass': RC_EXIST, 'Role'
 
 BOUNDS = {
     'quick': {
-        'nodes_default_namespace': 'A: a1, a2; A1: a3; B: b1, b2 (other namespace: A.a1, B.b1)',
-        'candidates': 'R 6, R1 6, Q 6 (l != r), T 18, special 8 (self-association, N with both '
-                      'ends / explicit NULL end via CreateInstance / omitted end / NULL end via '
-                      'add_cimobjects, R and Q across namespaces, T across namespaces)',
-        'max_association_instances': 2,
-        'filters_set_by_graph_size': {'0': 2, '1': 2, '2': 1},
-        'all_four_filters_existing_consistent_names': 'graphs with <= 1 association instance',
-        'open_iter_variants': 'graphs with <= 1 association instance, <= 1 filter set',
+        'nodes': 'default namespace A: a1, a2; A1: a3; B: b1, b2; other namespace A.a1, B.b1',
+        'candidates': '44: R 6, R1 6, Q 6 (l != r), T 18 (6 with a == c), special 8 '
+                      '(self-association Q(a1,a1); N with both ends / explicit NULL end via '
+                      'CreateInstance / omitted end / NULL end via add_cimobjects; R, Q (same '
+                      'class and key, other namespace) and T with an end in the other namespace)',
+        'graphs': 'every subset of <= 2 candidates (991)',
+        'filters_set_for_referenced_sources_by_graph_size': {'0': 2, '1': 2, '2': 1},
+        'filters_set_for_isolated_sources_by_graph_size': {'0': 2, '1': 1, '2': 0},
+        'all_four_filters_existing_consistent_names': 'graphs with <= 1 association instance, '
+                                                      'referenced sources',
+        'open_iter_variants': 'Open..., Iter... with pull; graphs with <= 1 association '
+                              'instance, <= 1 filter set (isolated sources: no filter)',
         'class_level': '<= 2 filters set + all four existing, 10 source class names, 2 graphs',
     },
     'thorough': {
-        'nodes_default_namespace': 'small family as quick; large family A: a1, a2, a4; A1: a3, a5; '
-                                   'B: b1, b2, b3',
-        'candidates': 'small family: quick candidates + 12 more special (self-association on every '
-                      'A node, NULL/omitted ends on the other side, cross-namespace created from '
-                      'the other namespace / both ends foreign / R1 / ternary, case variant class '
-                      'name in a reference value); large family: R, R1, Q, T over all nodes',
-        'max_association_instances': 3,
-        'filters_set_by_graph_size': {'0': 3, '1': 3, '2': '1 (+2 over existing names)', '3': 0},
-        'all_four_filters_existing_consistent_names': 'graphs with <= 2 association instances',
-        'open_iter_variants': 'graphs with <= 1 association instance, <= 2 filters set',
-        'large_family': '<= 2 association instances, filters set 2 / 1 / 0',
+        'nodes': 'small family as quick; large family A: a1, a2, a4; A1: a3, a5; B: b1, b2, b3',
+        'candidates': 'small family 57: the quick candidates + 13 special (self-association on '
+                      'every A node, NULL/omitted ends on either side or both, cross-namespace '
+                      'created from the other namespace / both ends foreign / R1 / ternary, class '
+                      'name or namespace of a reference value in another lexical case); large '
+                      'family 125: R, R1, Q, T over all nodes',
+        'graphs': 'small family: every subset of <= 3 candidates; large family: every subset of '
+                  '1 or 2 candidates',
+        'filters_set_for_referenced_sources_by_graph_size':
+            {'0': 3, '1': 3, '2': '1, and 2 over the existing names', '3': 0,
+             'large family': {'1': 2, '2': 0}},
+        'filters_set_for_isolated_sources_by_graph_size':
+            {'0': 3, '1': 2, '2': 0, '3': 0, 'large family': {'1': 1, '2': 0}},
+        'all_four_filters_existing_consistent_names': 'graphs with <= 1 association instance, '
+                                                      'referenced sources',
+        'open_iter_variants': 'Open..., Iter... with and without pull; graphs with <= 1 '
+                              'association instance, <= 2 filters set (isolated sources: 1)',
         'class_level': 'full filter product, 10 source class names, 2 graphs',
     },
 }
@@ -149,11 +171,6 @@ for _fam, (_n, _f) in TRAD_PAIRS.items():
 for _fam, _prs in VARIANT_PAIRS.items():
     for _n, _f in _prs:
         OP_FAMILY[_n] = OP_FAMILY[_f] = _fam
-PARTNER = {}
-for _n, _f in list(TRAD_PAIRS.values()) + [p for v in VARIANT_PAIRS.values() for p in v]:
-    PARTNER[_n] = (_n, _f)
-    PARTNER[_f] = (_n, _f)
-
 RM.selftest()
 
 
@@ -212,6 +229,7 @@ def candidates(tier, family):
                                   _end('c', 'A', 'a1', 'd')]],
             ['R', 'd', 'create', [_end('x', 'a', 'a2'), _end('y', 'b', 'b2')]],      # case variant
             ['Q', 'o', 'create', [_end('l', 'A', 'a1', 'o'), _end('r', *a2)]],
+            ['R', 'd', 'create', [_end('x', 'A', 'a2', 'D'), _end('y', *b1)]],       # ns case variant
         ]
     return out + special
 
@@ -225,8 +243,10 @@ def cand_kind(c):
         feats.append('omitted')
     if c[2] != 'create':
         feats.append(c[2])
-    if c[1] != 'd' or any(len(e) > 3 and e[3] != 'd' for e in ends):
+    if c[1] != 'd' or any(len(e) > 3 and e[3] == 'o' for e in ends):
         feats.append('xns')
+    if any(len(e) > 3 and e[3] == 'D' for e in ends):
+        feats.append('nscase')
     vals = [tuple(e[1:]) for e in ends if e[1] is not None]
     if len(set(vals)) < len(vals):
         feats.append('self')
@@ -235,7 +255,7 @@ def cand_kind(c):
 
 def touches_other(gspec):
     for c in gspec['assocs']:
-        if c[1] != 'd' or any(len(e) > 3 and e[3] != 'd' for e in c[3]):
+        if c[1] != 'd' or any(len(e) > 3 and e[3] == 'o' for e in c[3]):
             return True
     return False
 
@@ -262,8 +282,9 @@ def plan_for(tier, gspec):
     its expected results are empty) one level less."""
     n = len(gspec['assocs'])
     if tier == 'quick':
-        pairs = {f: [p for p in VARIANT_PAIRS[f] if not (p[0].startswith('Iter') and
-                                                          '[pull]' not in p[0])]
+        # Open... and Iter... with pull (Iter... without pull only in the thorough tier)
+        pairs = {f: [p for p in VARIANT_PAIRS[f]
+                     if p[0].startswith('Open') or p[0].endswith('[pull]')]
                  for f in VARIANT_PAIRS}
         return dict(referenced=dict(nf={0: 2, 1: 2, 2: 1}[n], allfour=(n <= 1)),
                     isolated=dict(nf={0: 2, 1: 1, 2: 0}[n]),
@@ -273,8 +294,8 @@ def plan_for(tier, gspec):
         return dict(referenced=dict(nf={1: 2, 2: 0}[n], allfour=(n <= 1)),
                     isolated=dict(nf={1: 1, 2: 0}[n]), variants=None)
     return dict(referenced=dict(nf={0: 3, 1: 3, 2: 1, 3: 0}[n], nf_exist=(2 if n == 2 else 0),
-                                allfour=(n <= 2)),
-                isolated=dict(nf={0: 3, 1: 2, 2: 1, 3: 0}[n]),
+                                allfour=(n <= 1)),
+                isolated=dict(nf={0: 3, 1: 2, 2: 0, 3: 0}[n]),
                 variants=(dict(referenced=dict(nf=2), isolated=dict(nf=1), pairs=VARIANT_PAIRS)
                           if n <= 1 else None))
 
@@ -871,7 +892,8 @@ def judge_family(rep, acc, conns, gspec, gk, src, obj, fam, tuples, pair, insts,
                                            ':VIOLATION' if bad else ''),
                  calls=2,
                  sample=(dict(graph=gspec, source=src, op=n_op, filters=flt, result=list(o1))
-                         if nontrivial and len(flt) >= 1 and o1[0] == 'ok' and o1[1] else None))
+                         if nontrivial and len(flt) >= 1 and o1[0] == 'ok' and o1[1] and
+                         getattr(acc, 'c13_samples', False) and gspec['assocs'] else None))
     # monotone over the evaluated lattice
     evaluated = set(res)
     for flt in tuples:
@@ -1059,6 +1081,8 @@ def run_shard(shard, tier):
         return acc
     if tier not in _GRAPHS:
         _GRAPHS[tier] = graphs(tier)
+    # samples only from the shard of graph 1, so that the evidence does not depend on shard order
+    acc.c13_samples = (shard['lo'] <= 1 < shard['hi'])
     for gspec in _GRAPHS[tier][shard['lo']:shard['hi']]:
         eval_graph(gspec, tier, acc, rep)
     return acc
